@@ -143,6 +143,21 @@ func (p *Peer) CloseConn() {
 	}
 }
 
+// WriteThenCloseConn makes the TCP peer write b to the exporter and then close the connection (a
+// collector, proxy or load balancer that says something before it hangs up).
+func (p *Peer) WriteThenCloseConn(b []byte) {
+	p.mu.Lock()
+	for p.conn == nil && !p.closed {
+		p.cond.Wait()
+	}
+	c := p.conn
+	p.mu.Unlock()
+	if c != nil {
+		c.Write(b)
+		c.Close()
+	}
+}
+
 func (p *Peer) waitFor(limit time.Duration, pred func() bool) bool {
 	deadline := time.Now().Add(limit)
 	t := time.AfterFunc(limit, func() { p.mu.Lock(); p.cond.Broadcast(); p.mu.Unlock() })
